@@ -1,28 +1,26 @@
 """Property -> rules mapping, level texts, assumptions."""
-from .rules import limbs
+from . import entries
+from .rules import limbs, total_rule, unimpl
 
 COMMON_ASSUMPTIONS = [
     "rustc's type checker, trait resolution, MIR construction and constant evaluation are correct "
     "(facts come from nightly 1.97; shipped code is compiled by stable 1.95: same front-end semantics assumed)",
     "analysed target is x86_64 little-endian; cfg(target_endian=\"big\"), cfg(test) and cfg(doc) code is not analysed",
+    "release semantics (-Cdebug-assertions=off): debug_assert! bodies and arithmetic-overflow checks are not panic sites",
     "foreign crates are leaves: assumed to meet their documented post-conditions and unable to touch limb storage "
-    "(private field)",
+    "(private field); value-range summaries of core functions (leading_zeros in [0,64], Range::next < end, "
+    "slice::len) are trusted",
+    "implicit panic sites (bounds checks, slice ranges) inside algorithms:: are the value contract of C14/C15 (not "
+    "applicable) and are trusted leaves; explicit sites there are inventoried",
 ]
 
-
-def rules_C04(ctx):
-    reps = []
-    for cfg in ctx.build_configs(quick=("all", "all-norand09")):
-        r = limbs.run(ctx, cfg)
-        if cfg != "all":
-            r.rule = r.rule  # same rule, other build configuration; keys are identical and de-duplicated below
-        reps.append(r)
-    return merge_same_rule(reps)
+TOTAL_FLOORS = {"C01": 28, "C02": 13, "C03": 7, "C05": 98, "C06": 36, "C07": 54, "C08": 11, "C09": 12, "C10": 5,
+                "C13": 8, "C16": 30, "C17": 48, "C18": 6, "C20": 150}
 
 
 def merge_same_rule(reps):
-    """Merge reports of the same rule run on several build configurations:
-    an obligation key is ok only if it is ok wherever it occurs."""
+    """Merge reports of one rule run on several build configurations: an obligation key
+    is ok only if it is ok wherever it occurs."""
     out = {}
     order = []
     for r in reps:
@@ -48,18 +46,96 @@ def merge_same_rule(reps):
     return [out[k] for k in order]
 
 
+def total_for(pid, ctx, own_only=False):
+    reps = []
+    for cfg in ctx.build_configs(quick=("all",), thorough=("all", "all-norand09", "default", "nodefault")):
+        floor = TOTAL_FLOORS[pid] if cfg.startswith("all") else 0
+        reps.append(total_rule.run(ctx, entries.TOTAL_ENTRIES[pid], floor, cfg, label=pid, own_only=own_only))
+    return merge_same_rule(reps)
+
+
+def rules_C04(ctx):
+    reps = []
+    for cfg in ctx.build_configs(quick=("all", "all-norand09"), thorough=("all", "all-norand09", "default", "nodefault")):
+        reps.append(limbs.run(ctx, cfg) if cfg.startswith("all") else limbs.run(ctx, cfg, floors=False))
+    return merge_same_rule(reps)
+
+
+def rules_total_only(pid, own_only=False):
+    def f(ctx):
+        return total_for(pid, ctx, own_only)
+    return f
+
+
+def rules_C03(ctx):
+    return total_for("C03", ctx) + [unimpl.run(ctx, "all")]
+
+
+PARTIAL = ("Structural clauses of %s decided for all paths, all enabled integrations and the evaluated (BITS, LIMBS) "
+           "configurations: %s. The numerical behaviour (%s) is NOT decided.")
+
+
+def P(pid, clauses, not_decided_short, rules, not_decided):
+    return {"level": "other", "rules": rules, "text": PARTIAL % (pid, clauses, not_decided_short),
+            "not_decided": not_decided}
+
+
 PROPS = {
-    "C04": {
-        "level": "other",
-        "rules": rules_C04,
-        "text": "Structural clauses of C04 decided for all paths, all enabled integrations and the evaluated "
-                "(BITS, LIMBS) configurations: every producer of a Uint forces the LIMBS assertion (R-LIMBS). "
-                "The numerical behaviour (that cmp scans most-significant first, that kernels return in-range "
-                "values) is NOT decided.",
-        "not_decided": ["that algorithms::cmp orders limbs most-significant first",
-                        "value claims of the arithmetic kernels (quotient <= numerator, remainder < divisor)"],
-    },
+    "C01": P("C01", "no panic site is reachable from any add/sub/neg form or operator (R-TOTAL)",
+             "that the carry chain computes the sum", rules_total_only("C01"),
+             ["that the limb-wise carry chain computes the sum/difference", "abs_diff's value"]),
+    "C02": P("C02", "no panic site is reachable from any mul form, inv_ring, Product (R-TOTAL)",
+             "products, Hensel lifting", rules_total_only("C02"), ["products", "trimming bookkeeping in addmul"]),
+    "C03": P("C03", "checked_div/checked_rem/checked_next_multiple_of reach the zero-divisor panic only behind a "
+             "dominating non-zero test (R-TOTAL, D-zero); no todo!/unimplemented! is reachable from a public item "
+             "(R-UNIMPL)", "the Euclidean contract; that no non-zero divisor panics inside the Knuth kernels",
+             rules_C03, ["the Euclidean contract", "no non-zero divisor panics (kernel indices are run-time values)"]),
+    "C04": P("C04", "every producer of a Uint forces the LIMBS assertion (R-LIMBS)",
+             "that cmp scans most-significant first, kernel value claims", rules_C04,
+             ["that algorithms::cmp orders limbs most-significant first",
+              "value claims of the arithmetic kernels (quotient <= numerator, remainder < divisor)"]),
+    "C05": P("C05", "no shift/rotate form or operator overload reaches a panic site; every limb index in "
+             "overflowing_shl/shr is in range by the `limbs >= LIMBS` guard (R-TOTAL)",
+             "bit positions, rotation arithmetic, sign fill", rules_total_only("C05"),
+             ["bit positions", "rotation arithmetic", "sign fill"]),
+    "C06": P("C06", "bit/set_bit/checked_byte/count functions reach no panic site; index guards dominate the limb "
+             "accesses (R-TOTAL)", "every counting function's value", rules_total_only("C06"),
+             ["values of the counting functions", "most_significant_bits"]),
+    "C07": P("C07", "every TryFrom/wrapping/saturating conversion in either direction and the *_from_limbs_slice "
+             "constructors reach no undischarged panic site: each asserting from_limbs is behind a top-limb bound "
+             "(R-TOTAL, D-mask)", "that wrapped payloads equal v mod 2^BITS", rules_total_only("C07"),
+             ["wrapped payload values"]),
+    "C08": P("C08", "try_from_{be,le}_slice, checked_copy_* and the slice/vec byte forms reach no undischarged panic "
+             "site in any configuration, in particular the asserting from_limbs only behind a top-limb check (R-TOTAL)",
+             "digit order, round trip", rules_total_only("C08"), ["digit order inside the loops", "round trip"]),
+    "C09": P("C09", "from_str/from_str_radix/from_base_* and the formatters reach no undischarged panic site (R-TOTAL)",
+             "Horner/spigot arithmetic, padding output", rules_total_only("C09"),
+             ["Horner/spigot arithmetic", "padding and alignment output"]),
+    "C10": P("C10", "reduce_mod/add_mod/mul_mod/pow_mod/inv_mod reach the zero-divisor panic only behind a dominating "
+             "non-zero test of the modulus (R-TOTAL, D-zero)", "residues, pow_mod, inv_mod cofactor sign",
+             rules_total_only("C10"), ["residues", "pow_mod", "inv_mod cofactor sign"]),
+    "C13": P("C13", "checked_log*/checked_pow and the pow family reach no undischarged panic site at any width, "
+             "including BITS < 4 where the constants 2 and 10 do not fit (R-TOTAL, D-lit, return-discriminant "
+             "summaries)", "values, termination of root, float estimates", rules_total_only("C13"),
+             ["values", "termination of root", "float estimates inside log"]),
+    "C16": P("C16", "encoders, length and size-hint functions reach no undischarged panic site (R-TOTAL)",
+             "round trip, byte-exact reference encodings, size-hint arithmetic", rules_total_only("C16"),
+             ["round trip", "reference encodings", "size-hint arithmetic (F16: scale CompactRefUint::size_hint)"]),
+    "C17": P("C17", "every decoder entry point (serde, rlp, alloy-rlp, fastrlp, SCALE, SSZ, borsh, DER, postgres, "
+             "num-bigint, sqlx, diesel, pyo3, bn-rs, byte-slice and string parsers) reaches no undischarged panic site "
+             "in any configuration: panic-site inventory of the call-graph closure with guard-dominance discharge "
+             "(R-TOTAL)", "that the returned value is the one the input denotes; termination",
+             rules_total_only("C17"), ["that the returned value is the one the input denotes", "termination"]),
+    "C18": P("C18", "float<->Uint conversions reach no undischarged panic site (R-TOTAL)",
+             "rounding, neighbour and monotonicity claims", rules_total_only("C18"),
+             ["rounding direction", "neighbour/monotonicity of Uint->float"]),
+    "C20": P("C20", "no facade function (Bits wrapper, num-traits, num-integer, subtle, zeroize) contains a panic "
+             "source of its own beyond the reviewed rows where its signature cannot express the failure (R-TOTAL, "
+             "own sites only)", "that the inherent method is right; constant-time-ness",
+             rules_total_only("C20", own_only=True), ["that the inherent methods are right", "constant-time-ness"]),
 }
 
 # properties not yet claimed in this round, with the reason shown in MANIFEST.not_applicable
-PENDING = {}
+PENDING = {
+    "C19": "witness runner (compile-fail / compile-pass programs for uint!) not built yet in this round; see DESIGN.md C19",
+}
